@@ -34,9 +34,10 @@ LEVEL_TEXT = ('The writer (`_smiles`: start choice, BFS distances, DFS with cycl
               'closure pair), no fuel bound of the model is ever reached, and hence the written body lexes and a positional reader '
               '(readL, compared with the real smiles(text) on every sampled case) reads back exactly the atoms and the bond set of the '
               'molecule under the written order; equal token lists force equal elements, isotope labels, charges, bracket H counts '
-              'and bond sets; every chain bond read back carries exactly the symbol _format_bond(parent, atom) and that symbol decodes '
-              'to the bond order. The DFS locals of the real frame (start, discovery order, tree, closure bonds) are compared with the '
-              'model per round. NOT proved for all graphs: the symbols at the two ends of ring closures and everything about stereo configuration; '
+              'and bond sets; every chain bond read back carries exactly the symbol _format_bond(parent, atom), every ring-closure bond '
+              '_format_bond at its two digits (one with asymmetric closures), and the symbols decode to the bond orders. The DFS locals '
+              'of the real frame (start, discovery order, tree, closure bonds) are compared with the '
+              'model per round. NOT proved for all graphs: everything about stereo configuration (chirality and / \\ marks); '
               'these are certified run by run by Lean-executed checkers and by re-reading the text with the reader model of C03 '
               '(Lean judge incl. stereo) and with the real reader (Python judge under the written atom order, no canonicaliser; '
               'for nested dependent stereo units additionally an own permutation-parity judge).')
